@@ -1,7 +1,9 @@
 (* C16 — device grant: tokens only after approval, once, for the right client, in time.  Statements only.
-   (Reference store; the clause about a store that reports the code as already used is treated in DESIGN.md
-   section 8, A2.) *)
-From FositeModel Require Import Base.Str Model.Scope Model.Core Model.Flows Proofs.StepProps Proofs.C16Proofs.
+   The device-code table is modelled both ways ([cf_dev_contract cfg]): the reference store forgets an invalidated
+   code, a store that follows the storage contract answers it with its request and ErrInvalidatedDeviceCode;
+   the last two theorems are about the second kind (the clause that A2 was about, DESIGN.md section 8). *)
+From FositeModel Require Import Base.Str Model.Scope Model.Core Model.Flows Proofs.CoreInv Proofs.Implicit Proofs.StepProps
+     Proofs.C16Proofs Proofs.C16Contract.
 
 Theorem C16_tokens_only_after_approval_for_the_right_client_in_time :
   forall cfg s auth dev,
@@ -14,51 +16,65 @@ Theorem C16_tokens_only_after_approval_for_the_right_client_in_time :
     o_scopes (snd res) = r_gscopes r /\
     device (st (fst res)) k = None /\
     (exists ka, access (st (fst res)) ka = Some (minted_record cfg s r cl)) /\
-    (In KRefresh (o_minted (snd res)) -> can_refresh cfg (r_gscopes r) cl = true).
+    (In KRefresh (o_minted (snd res)) -> can_refresh cfg (r_gscopes r) cl = true) /\
+    used_device cfg (st s) k = None /\ dev_used (st (fst res)) k = Some (r_id r).
 Proof. exact poll_ok_facts. Qed.
 Print Assumptions C16_tokens_only_after_approval_for_the_right_client_in_time.
 
+(* the verdicts, on every reachable state (where a pending code is never among the invalidated ones) *)
 Theorem C16_undecided_is_authorization_pending :
-  forall cfg s c cl dev k stt r,
+  forall cfg cls h c cl dev k stt r, let s := run cfg (state0 cls) h in
   clients s c = Some cl -> args_has (cl_grants cl) [device_grant] = true ->
   key_of s dev = Some k -> device (st s) k = Some (stt, r) ->
   stt = 0 -> device_poll cfg s (Some c) dev = (s, err_obs "authorization_pending").
-Proof. exact poll_pending. Qed.
+Proof. exact reachable_poll_pending. Qed.
 Print Assumptions C16_undecided_is_authorization_pending.
 
 Theorem C16_denied_is_access_denied :
-  forall cfg s c cl dev k stt r,
+  forall cfg cls h c cl dev k stt r, let s := run cfg (state0 cls) h in
   clients s c = Some cl -> args_has (cl_grants cl) [device_grant] = true ->
   key_of s dev = Some k -> device (st s) k = Some (stt, r) ->
   stt = 2 -> device_poll cfg s (Some c) dev = (s, err_obs "access_denied").
-Proof. exact poll_denied. Qed.
+Proof. exact reachable_poll_denied. Qed.
 Print Assumptions C16_denied_is_access_denied.
 
 Theorem C16_expired_is_expired_token :
-  forall cfg s c cl dev k stt r,
+  forall cfg cls h c cl dev k stt r, let s := run cfg (state0 cls) h in
   clients s c = Some cl -> args_has (cl_grants cl) [device_grant] = true ->
   key_of s dev = Some k -> device (st s) k = Some (stt, r) ->
   stt <> 0 -> stt <> 2 -> expired (s_exp_dev (r_sess r)) (r_at r) (cf_life_dev cfg) (now s) = true ->
   device_poll cfg s (Some c) dev = (s, err_obs "expired_token").
-Proof. exact poll_expired. Qed.
+Proof. exact reachable_poll_expired. Qed.
 Print Assumptions C16_expired_is_expired_token.
 
 Theorem C16_foreign_client_is_invalid_grant :
-  forall cfg s c cl dev k stt r,
+  forall cfg cls h c cl dev k stt r, let s := run cfg (state0 cls) h in
   clients s c = Some cl -> args_has (cl_grants cl) [device_grant] = true ->
   key_of s dev = Some k -> device (st s) k = Some (stt, r) ->
   stt <> 0 -> stt <> 2 -> expired (s_exp_dev (r_sess r)) (r_at r) (cf_life_dev cfg) (now s) = false ->
   p_tampered dev = false -> r_client r <> c ->
   device_poll cfg s (Some c) dev = (s, err_obs "invalid_grant").
-Proof. exact poll_foreign_client. Qed.
+Proof. exact reachable_poll_foreign_client. Qed.
 Print Assumptions C16_foreign_client_is_invalid_grant.
 
+(* a refused poll yields nothing; it changes nothing either, except that the replay of a redeemed code at a
+   contract-following table revokes the tokens of the code's request *)
 Theorem C16_refused_poll_yields_nothing_and_changes_nothing :
   forall cfg s auth dev,
   o_err (snd (device_poll cfg s auth dev)) <> "" ->
-  fst (device_poll cfg s auth dev) = s /\ o_minted (snd (device_poll cfg s auth dev)) = [].
+  o_minted (snd (device_poll cfg s auth dev)) = [] /\
+  (fst (device_poll cfg s auth dev) = s \/
+   exists k rid, key_of s dev = Some k /\ used_device cfg (st s) k = Some rid /\
+                 fst (device_poll cfg s auth dev) = replay_revocation s rid).
 Proof. exact poll_refused_changes_nothing. Qed.
 Print Assumptions C16_refused_poll_yields_nothing_and_changes_nothing.
+
+Theorem C16_refused_poll_changes_nothing_at_the_reference_store :
+  forall cfg s auth dev, cf_dev_contract cfg = false ->
+  o_err (snd (device_poll cfg s auth dev)) <> "" ->
+  fst (device_poll cfg s auth dev) = s /\ o_minted (snd (device_poll cfg s auth dev)) = [].
+Proof. exact poll_refused_changes_nothing_reference. Qed.
+Print Assumptions C16_refused_poll_changes_nothing_at_the_reference_store.
 
 Theorem C16_device_code_yields_tokens_at_most_once :
   forall cfg cls h1 auth dev h2 auth' dev',
@@ -80,3 +96,45 @@ Theorem C16_device_authorization_endpoint :
     o_minted (snd (device_authorize cfg s auth bc sc au)) = [KDevice; KUser].
 Proof. exact device_authorize_ok_facts. Qed.
 Print Assumptions C16_device_authorization_endpoint.
+
+(* a store that follows the contract: the replay of a redeemed device code - after any history, by any authenticated
+   client registered for the grant - is refused, yields nothing, and revokes the grant the code was redeemed for:
+   no access token of its request is left, no refresh token of it is active, nothing can bring one back
+   ([dead_all]: Proofs/CoreInv.v, Proofs/Implicit.v) *)
+Theorem C16_replayed_device_code_revokes_its_tokens :
+  forall cfg cls h1 auth dev h2 c cl dev',
+  cf_dev_contract cfg = true ->
+  let s1 := run cfg (state0 cls) h1 in
+  o_err (snd (device_poll cfg s1 auth dev)) = "" ->
+  let s2 := run cfg (fst (device_poll cfg s1 auth dev)) h2 in
+  key_of s2 dev' = key_of s1 dev ->
+  clients s2 c = Some cl -> args_has (cl_grants cl) [device_grant] = true ->
+  exists k stt r, key_of s1 dev = Some k /\ device (st s1) k = Some (stt, r) /\
+    let res := device_poll cfg s2 (Some c) dev' in
+    o_err (snd res) = "invalid_grant" /\ o_minted (snd res) = [] /\
+    fst res = replay_revocation s2 (r_id r) /\ dead_all (st (fst res)) (r_id r).
+Proof. exact device_replay_kills. Qed.
+Print Assumptions C16_replayed_device_code_revokes_its_tokens.
+
+(* ... and every credential ever minted for that request is reported inactive from then on *)
+Theorem C16_tokens_of_a_replayed_device_code_stay_inactive :
+  forall cfg cls h1 auth dev h2 c cl dev' h3 i e tampered hint scopes,
+  cf_dev_contract cfg = true ->
+  let s1 := run cfg (state0 cls) h1 in
+  o_err (snd (device_poll cfg s1 auth dev)) = "" ->
+  let s2 := run cfg (fst (device_poll cfg s1 auth dev)) h2 in
+  key_of s2 dev' = key_of s1 dev ->
+  clients s2 c = Some cl -> args_has (cl_grants cl) [device_grant] = true ->
+  forall k stt r, key_of s1 dev = Some k -> device (st s1) k = Some (stt, r) ->
+  let s3 := run cfg (fst (device_poll cfg s2 (Some c) dev')) h3 in
+  nth_error (log s3) i = Some e -> i_rid e = r_id r ->
+  introspect cfg s3 {| p_ref := CRef i; p_tampered := tampered |} hint scopes = None.
+Proof. exact device_replay_credentials_inactive. Qed.
+Print Assumptions C16_tokens_of_a_replayed_device_code_stay_inactive.
+
+(* pending and invalidated codes are disjoint on every reachable state *)
+Theorem C16_pending_code_is_not_invalidated :
+  forall cfg cls h k stt r,
+  let s := run cfg (state0 cls) h in device (st s) k = Some (stt, r) -> used_device cfg (st s) k = None.
+Proof. exact pending_code_not_used. Qed.
+Print Assumptions C16_pending_code_is_not_invalidated.
